@@ -265,6 +265,14 @@ def realproc_job(job):
             # which this technique does not decide); neither a verdict nor a harness failure
             agg.notes["realproc_run_gave_no_answer_within_300s"] += 1
             return agg.to_dict()
+        if (rc != 0 or line is None) and not batch.os_level_failure(rc, err):
+            agg.violations.append({"property": PROP, "class": "analysis_failed", "site": "real-multiprocessing",
+                                   "detail": "real run raised: %s" % (err[-400:],), "facts": {},
+                                   "spec": {"property": PROP, "kind": "realproc", "case": cs, "timeout": job["timeout"],
+                                            "ncpu": job["ncpu"], "threshold": job.get("threshold", "-")},
+                                   "choices": [], "verif_seed": job["seed"], "run_index": 0, "subcheck": "real-process",
+                                   "event_log_sha1": "", "event_log_tail": []})
+            return agg.to_dict()
         if rc != 0 or line is None:
             # OS-level trouble (fork failure under load): no evidence either way, not a verdict
             agg.notes["realproc_could_not_run"] += 1
